@@ -50,14 +50,10 @@ ALLOW = {
     "SqlFluffTable.of:.segments:index:0": ("an object/table reference node has at least one identifier child (ObjectReferenceSegment is Delimited(identifier, min 1))", "reference-nonempty"),
     "SqlFluffTable.of:.segments:index:i+1": ("dot_idx ranges over range(len(segments) - 2, -1, -1), so dot_idx + 1 <= len(segments) - 1", None),
     "parser.sqlfluff.utils.is_subquery:.segments:index:0": ("a from_expression_element has at least one child (grammar: table expression is mandatory)", "fee-nonempty"),
-    "parser.sqlfluff.utils.extract_as_and_target_segment:.segments:index:0": ("a table_expression / from_expression_element child has at least one child segment", "fee-nonempty"),
-    "parser.sqlfluff.utils.extract_as_and_target_segment:list_child_segments():index:0": ("a from_expression_element has at least one non-negligible child", "fee-nonempty"),
-    "parser.sqlfluff.utils.extract_as_and_target_segment:list_child_segments():index:1": ("reached only when the first child is the LATERAL keyword, which the grammar always follows by the table expression", "fee-nonempty"),
     "BaseExtractor._list_table_from_from_clause_or_join_clause:[list]|list_child_segments():index:0": ("a from_expression_element has at least one non-keyword child (its table expression)", "fee-nonempty"),
     "MergeExtractor.extract:list_child_segments():index:i+1": ("the merge_statement grammar requires the join condition and match clauses after the USING source, so a bracketed source is never the last child", "merge-source-not-last"),
     "SqlParseLineageAnalyzer.analyze:token_first():optional-deref": ("statements reach analyze() only through split(), which keeps only pieces with a non-comment first token (rule R05.2)", None),
     "SqlParseLineageAnalyzer.analyze:.tokens:index:1": ("a sqlparse Parenthesis always holds its opening and closing token, so tokens[1] exists", None),
-    "parser.sqlparse.utils.get_subquery_parentheses:token_first():optional-deref": ("dereferenced only after isinstance(target, ...) dispatch; a None target falls through every branch to is_subquery(None) -> False", None),
     "SwapPartitionHandler.handle:get_name():optional-deref": ("a sqlparse Function always has a name token", None),
     "TargetHandler._handle:token_first():optional-deref": ("an Identifier group has at least one token", None),
 }
@@ -176,8 +172,20 @@ def rules(ctx: Ctx) -> None:
             cond = next((c for c in lcfg.nodes.values() if c.kind == "cond" and lcfg.reach(c.id, r.id) and "violation" in u(c.ast)), None)
             ok = bool(tree_uses) and cond is not None and all(lcfg.dominates(cond.id, t.id) for t in tree_uses)
             ctx.ob("R10.2", "violations-check-dominates-tree-access", ok, lister.loc(), f"{lname}: every access to parsed.tree is dominated by the violations test")
-            none_parsed = [lcfg.node_for(k) for k in prog.walk_fn(lister) if isinstance(k, ast.If) and "parsed_variants" in u(k.test)]
+            np_ifs = [k for k in prog.walk_fn(lister) if isinstance(k, ast.If) and "parsed_variants" in u(k.test)]
+            none_parsed = [lcfg.node_for(k) for k in np_ifs]
             ok_np = bool(none_parsed) and cond is not None and any(c is not None and lcfg.dominates(c, cond.id) for c in none_parsed)
+            # ... and when nothing was parsed the report cannot come out empty (sqlfluff may have skipped the text without a violation)
+            def _never_empty(k: ast.If) -> bool:
+                for st_ in k.body:
+                    if isinstance(st_, ast.Raise):
+                        return True
+                    if isinstance(st_, ast.Assign) and isinstance(st_.value, ast.BoolOp) and isinstance(st_.value.op, ast.Or) and isinstance(st_.value.values[-1], (ast.List, ast.Tuple)) and st_.value.values[-1].elts:
+                        return True
+                    if isinstance(st_, ast.Assign) and isinstance(st_.value, (ast.List, ast.Tuple)) and st_.value.elts:
+                        return True
+                return False
+            ok_np = ok_np and any(_never_empty(k) for k in np_ifs)
             ctx.ob("R10.2", "nothing-parsed-is-invalid-syntax", ok_np, lister.loc(),
                    f"{lname}: when no variant was parsed at all (templater failure) the violations are reported as invalid syntax before `.tree` (which asserts) is touched")
     # no other routine reads the tree of a parse result
@@ -276,7 +284,9 @@ def rules(ctx: Ctx) -> None:
                         for h in a.handlers:
                             converts = any(isinstance(k, ast.Raise) and k.exc is not None and prog.resolve_expr(k.exc.func if isinstance(k.exc, ast.Call) else k.exc, f.mod, f)[0] == "class"
                                            and prog.is_subclass(prog.classes[prog.resolve_expr(k.exc.func if isinstance(k.exc, ast.Call) else k.exc, f.mod, f)[1]], base_exc) for b in h.body for k in ast.walk(b))
-                            if converts and (h.type is None or any(t in u(h.type) for t in ("Exception", "RuntimeError", "AssertionError"))):
+                            # the third-party parser fails in many ways on adversarial text (RuntimeError at the recursion limit, AssertionError /
+                            # KeyError / ValueError inside the templater and inline-directive handling): only a handler for Exception is a boundary
+                            if converts and (h.type is None or u(h.type) in ("Exception", "BaseException")):
                                 wrapped = True
                 if n.func.attr == "from_path":
                     ctx.allow("R10.4", f"parse-boundary:{f.name}:{n.func.attr}", loc(f.mod, n), f"`{u(n)[:60]}`",
